@@ -16,7 +16,7 @@ Ops == [op : {"SetName"}, p : Parents, n : Names, v : Vals]
        \cup [op : {"AddNew", "DelName"}, p : Parents, n : Names]
        \cup [op : {"AddObj", "Reparent", "Remove"}, p : Parents, c : Obj]
        \cup [op : {"Insert"}, p : Parents, i : 1..(MaxKids + 1), c : Obj]
-       \cup [op : {"Pop"}, p : Parents, i : 1..MaxKids]
+       \cup [op : {"Pop", "DelAt"}, p : Parents, i : 1..MaxKids]
        \cup [op : {"DelIdx"}, p : Parents, n : Names, i : 0..MaxKids]
        \cup [op : {"CopyFrom"}, p : Parents, n : Names, q : Parents]
        \cup [op : {"Adopt"}, p : Parents, q : Parents]
